@@ -998,6 +998,9 @@ func (v *FnVC) encodeAppend(ins ssa.Instruction, c *ssa.CallCommon, res ssa.Valu
 		v.note("append(bytes, string...) contents havocked in %s", v.fnName())
 		return
 	}
+	if why := appendAliasRisk(v.loops, ins, c); why != "" {
+		v.oblige("append-alias", "false", "the fresh-backing-array model of append is faithful here: "+why, ins.Pos())
+	}
 	k := v.elemKey(sl.Elem())
 	es := v.S.SortOf(sl.Elem())
 	h := v.heapGet(st, k)
